@@ -166,10 +166,12 @@ class Raw:
         """raw=True replace of nodes, and whole-tree reparse()"""
         root = self.fresh()
         paths = [(p, f.a.__class__.__name__) for p, f in node_paths(root) if p and isinstance(f.a, (ast.expr, ast.stmt))]
+        arglike = [(p, c) for p, c in paths if p[-1][0] in ('args', 'bases', 'keywords')]
         if len(paths) > (25 if quick else 200):
             paths = rnd.sample(paths, 25 if quick else 200)
+        paths = paths + [x for x in arglike if x not in paths]
         for path, cls in paths:
-            for code in ('zz', 'a + b', 'pass', '('):
+            for code in ('zz', 'a + b', 'pass', '(', '*sx'):
                 for rawopt in (True, 'auto'):
                     r = self.fresh()
                     n = follow(r, path)
@@ -201,7 +203,7 @@ class Raw:
                         self.ev += 1
                         try:
                             n2.replace(self.FST(code, 'expr'), raw='auto')
-                            if r2.src != r.src:
+                            if ast.dump(r2.a) != ast.dump(r.a):
                                 self.fail('C03', key + ':fst_form', f'{desc}: FST code form gives a different result '
                                           'than the source form', src=r.src[:200], fst=r2.src[:200])
                         except Exception as e:
